@@ -8,6 +8,13 @@ use std::cell::Cell;
 
 pub struct Counting;
 
+/// Process-wide totals (all threads), for the valgrind cross-check.
+pub static TOTAL_CALLS: std::sync::atomic::AtomicU64 = std::sync::atomic::AtomicU64::new(0);
+
+pub fn process_calls() -> u64 {
+    TOTAL_CALLS.load(std::sync::atomic::Ordering::Relaxed)
+}
+
 thread_local! {
     static ALLOCS: Cell<u64> = const { Cell::new(0) };
     static REALLOCS: Cell<u64> = const { Cell::new(0) };
@@ -17,6 +24,7 @@ thread_local! {
 
 unsafe impl GlobalAlloc for Counting {
     unsafe fn alloc(&self, layout: Layout) -> *mut u8 {
+        TOTAL_CALLS.fetch_add(1, std::sync::atomic::Ordering::Relaxed);
         let _ = ALLOCS.try_with(|c| c.set(c.get() + 1));
         let _ = BYTES.try_with(|c| c.set(c.get() + layout.size() as u64));
         System.alloc(layout)
@@ -26,11 +34,13 @@ unsafe impl GlobalAlloc for Counting {
         System.dealloc(ptr, layout)
     }
     unsafe fn alloc_zeroed(&self, layout: Layout) -> *mut u8 {
+        TOTAL_CALLS.fetch_add(1, std::sync::atomic::Ordering::Relaxed);
         let _ = ALLOCS.try_with(|c| c.set(c.get() + 1));
         let _ = BYTES.try_with(|c| c.set(c.get() + layout.size() as u64));
         System.alloc_zeroed(layout)
     }
     unsafe fn realloc(&self, ptr: *mut u8, layout: Layout, new_size: usize) -> *mut u8 {
+        TOTAL_CALLS.fetch_add(1, std::sync::atomic::Ordering::Relaxed);
         let _ = REALLOCS.try_with(|c| c.set(c.get() + 1));
         let _ = BYTES.try_with(|c| c.set(c.get() + new_size as u64));
         System.realloc(ptr, layout, new_size)
